@@ -56,7 +56,7 @@ theorem nmp_floor_fails (K : Keys) (cs : Eval.CoeffSet Int) : ¬ NmpFloor (realC
     (show (realCompWith K cs).nmpTry Props.C05.start 2 0 (-9999) = true from nmpTry_below_floor)) (by decide)
 
 theorem isReal_realCompG (K : Keys) (cs : Eval.CoeffSet Int) : IsReal K (realCompG K cs) :=
-  ⟨rfl, rfl, rfl, rfl, rfl, rfl, rfl, rfl, rfl⟩
+  ⟨rfl, rfl, rfl, fun _ d b p hs h => failHigh_ok h d b p hs, fun _ _ _ _ _ => rfl, rfl, rfl, rfl, rfl, rfl⟩
 
 theorem realCompG_laws (K : Keys) (cs : Eval.CoeffSet Int) : Laws (realCompG K cs) RealGood :=
   laws_of_isReal (isReal_realCompG K cs)
@@ -97,21 +97,26 @@ theorem rfpCut_sound (d : Int) (se beta : Score) (hd : 0 ≤ d) (hb : beta ≤ r
   unfold rfpSafe at hb
   exact rfpCut_sound' d se beta hd (by simp only [Score] at *; omega) h
 
-/-- the parameter laws of the `GoSane`-free argument: `WindowSize = 44`, and at depths ≤ 2 the reverse
-    futility margin `beta + d·102` cannot wrap for `beta ≤ Inf + 512·44`. -/
+/-- the parameter laws of the `GoSane`-free argument: `WindowSize = 44` is a safe window size (`WSafe`:
+    `39..44` or `78..88`), and at depth ≤ 1 the reverse futility margin `beta + d·102` cannot wrap for
+    `beta ≤ Inf + 512·44`. -/
 theorem real_aspLaws_with (K : Keys) (cs : Eval.CoeffSet Int) : AspLaws (realCompWith K cs) where
-  window44 := rfl
+  windowSafe := by show WSafe Gen.Search.params_WindowSize; decide
   rfp_shallow := fun d se beta hd hd2 hb h => rfpCut_sound' d se beta hd (by simp only [Score] at *; omega) h
 
 theorem real_aspLaws (K : Keys) (cs : Eval.CoeffSet Int) : AspLaws (realCompG K cs) where
-  window44 := rfl
+  windowSafe := by show WSafe Gen.Search.params_WindowSize; decide
   rfp_shallow := fun d se beta hd hd2 hb h => rfpCut_sound' d se beta hd (by simp only [Score] at *; omega) h
 
 /-- the score laws for any record that agrees with the real one in the fields the laws speak about and
-    whose null-move test implies the real one. -/
-theorem scoreLaws_of_isReal {K : Keys} {c : Comp PS Pick} (hc : IsReal K c) (hrfp : c.rfpCut = rfpCut)
-    (hnmp : ∀ b d se beta, c.nmpTry b d se beta = true → nmpTry b d se beta = true) (hlmr : c.lmrTry = lmrTry)
-    (hwin : c.windowSize = Gen.Search.params_WindowSize) :
+    whose pruning predicates have the four properties the laws ask for — stated abstractly, so that the
+    record of the spsa build (`realCompP`, any in-range parameter vector with `LMRStart ≥ 1`:
+    Proofs/SearchRealP.lean) is an instance as well. -/
+theorem scoreLaws_of_isReal_gen {K : Keys} {c : Comp PS Pick} (hc : IsReal K c)
+    (hrfp : ∀ d se beta, 0 ≤ d → beta ≤ rfpSafe → c.rfpCut d se beta = true → beta ≤ se)
+    (hnmp : ∀ b d se beta, c.nmpTry b d se beta = true → beta ≤ se)
+    (hlmr : ∀ d q, c.lmrTry d q = true → 2 ≤ q)
+    (hwin : 0 ≤ c.windowSize ∧ c.windowSize ≤ 100) :
     ScoreLaws c RealGood TTokReal muReal where
   tt_ok := fun _ h => h.1
   tt_probe := fun ps b ply e h h0 h1 he => by
@@ -121,37 +126,46 @@ theorem scoreLaws_of_isReal {K : Keys} {c : Comp PS Pick} (hc : IsReal K c) (hrf
     refine ⟨hok, ?_⟩
     rw [hc.ttStore]
     exact ttStore_valsOK h.2 b d h0 h1 m bd hv
-  tt_failHigh := fun ps d b p hs h => by
-    rw [hc.failHigh]
-    exact ⟨failHigh_ok h.1 d b p hs, by
-      show TTValsOK (failHigh ps d b p hs).tt
-      rw [failHigh_tt]; exact h.2⟩
+  tt_failHigh := fun ps d b p hs h =>
+    ⟨hc.failHigh_ok ps d b p hs h.1, by
+      show TTValsOK (c.failHigh ps d b p hs).tt
+      rw [hc.failHigh_tt]; exact h.2⟩
   tt_nextGen := fun ps h => by
     rw [hc.nextGen]
     exact ⟨nextGen_ok h.1, by
       show TTValsOK (nextGen ps).tt
       rw [nextGen_tt]; exact h.2⟩
-  rfp_sound := fun d se beta hd hb h => by
-    rw [hrfp] at h
-    exact rfpCut_sound d se beta hd hb h
-  nmp_sound := fun b d se beta h => by
-    have h' := hnmp b d se beta h
-    unfold nmpTry at h'
-    simp only [Bool.and_eq_true] at h'
-    exact of_decide_eq_true h'.1.2
-  lmr_late := fun d q h => by
-    rw [hlmr] at h
-    unfold lmrTry at h
-    simp only [Bool.and_eq_true] at h
-    exact Int.le_of_lt (of_decide_eq_true h.2)
-  window := by
-    rw [hwin]
-    decide
+  rfp_sound := hrfp
+  nmp_sound := hnmp
+  lmr_late := hlmr
+  window := hwin
   q_measure := fun ps b hs m w hg h => by
     rw [hc.qMoves] at h
     rw [hc.keys]
     exact mu_make_noisy K hg (qMoves_mem h)
   measure_bound := fun b hg => mu_le b hg
+
+/-- … in particular for a record whose predicates ARE the ones of the default build (up to a stronger
+    null-move test). -/
+theorem scoreLaws_of_isReal {K : Keys} {c : Comp PS Pick} (hc : IsReal K c) (hrfp : c.rfpCut = rfpCut)
+    (hnmp : ∀ b d se beta, c.nmpTry b d se beta = true → nmpTry b d se beta = true) (hlmr : c.lmrTry = lmrTry)
+    (hwin : c.windowSize = Gen.Search.params_WindowSize) :
+    ScoreLaws c RealGood TTokReal muReal :=
+  scoreLaws_of_isReal_gen hc
+    (fun d se beta hd hb h => by
+      rw [hrfp] at h
+      exact rfpCut_sound d se beta hd hb h)
+    (fun b d se beta h => by
+      have h' := hnmp b d se beta h
+      unfold nmpTry at h'
+      simp only [Bool.and_eq_true] at h'
+      exact of_decide_eq_true h'.1.2)
+    (fun d q h => by
+      rw [hlmr] at h
+      unfold lmrTry at h
+      simp only [Bool.and_eq_true] at h
+      exact Int.le_of_lt (of_decide_eq_true h.2))
+    (by rw [hwin]; decide)
 
 /-- **The score laws hold for the real components** — the unguarded record: what the missing guard can
     do is recorded by the ghost flag `St.nmpOut`, and the theorems are guarded by it. -/
